@@ -25,6 +25,7 @@ func init() {
 		},
 		Real:       realAll,
 		Stub:       stubAll,
+		HangIsViolation: true, // the property promises that requests are served
 		FaultKinds: []string{"restart", "client_browse_oob"},
 	})
 }
@@ -213,6 +214,7 @@ func runC02(c *core.Ctx) *core.Outcome {
 	}
 	t.End()
 	cfg.OutputSize = uint32(size)
+	cfg.First = t.Chance(1, 5) // a pre-VM function must not disturb browsing
 	w := world.New(x.a, cfg)
 	w.UseMem()
 	defer w.Close()
